@@ -14,10 +14,10 @@ REG = dict(category="model_checking",
     "X: in the order-13 group (7 and 199 in the thorough tier) the machine is run to closure over every key and every tweak encoding incl. the overflow encodings, "
     "every transition is replayed on the small-group build, plus all key lists up to length 2-3 for combine/sort, all pairs for cmp, all (key, tweak, claimed x, "
     "parity) for tweak_add_check. G: real-group one-step chains of every op x 20 boundary tweak kinds (0, 1, n-1, n, -key, -key+1, -key-1, -key+n, 2^256-1, 2^128, "
-    "lambda, n-lambda, (n+-1)/2, 1/key, random) from boundary keys, seeded random mixed chains of length 6, combine lists with cancelling pairs at every "
+    "lambda, n-lambda, (n+-1)/2, 1/key, random) from boundary keys, seeded random mixed chains of up to 6 steps, combine lists with cancelling pairs at every "
     "position (with the theorem combine(d_i*G) = (sum d_i)*G), cmp pairs incl. same-x keys, sort lists of lengths 0,1,2,3,5,8,39,40,41,64,200 (scrambled, with "
     "duplicates, aliased pointers, mixed encodings), tweak_add_check with wrong parity / key / tweak. HeapSort.tla is a PlusCal transcription of src/hsort_impl.h "
-    "model-checked over all arrays of length <= 7 over 3 keys (permutation, loop invariants, sorted at end, termination) and bound to the C function by comparing "
+    "model-checked over all arrays of length <= 6 over 3 keys (thorough: <= 7 over 4 keys; permutation, loop invariants, sorted at end, termination) and bound to the C function by comparing "
     "result and number of comparison-callback invocations for every such array. T: driver chains seeded from the implementation's own outputs decided by TLC.",
     note="Trusted: TLC, BigInteger/MessageDigest overrides, harness interpreter. Real-group keys and tweaks are a structured pool plus seeded random values; exhaustive "
     "only in the small groups (scalar_low_impl.h). One-step transitions from every reachable paired state cover all sequences because the API is a function of "
